@@ -152,7 +152,7 @@ func runCheck(o *checkOpts) int {
 		sort.Slice(fis, func(i, j int) bool { return fis[i].FullName() < fis[j].FullName() })
 		for _, fi := range fis {
 			w := newWorld()
-			ex := &Exec{w: w, prog: prog, count: map[string]int{}, heapS: map[string]*Sort{}, heapGo: map[string]types.Type{}, closures: map[string]*closureInfo{}, extUsed: map[string]bool{}}
+			ex := &Exec{w: w, prog: prog, count: map[string]int{}, heapS: map[string]*Sort{}, heapGo: map[string]types.Type{}, typedKeys: map[string]bool{}, closures: map[string]*closureInfo{}, extUsed: map[string]bool{}}
 			rep := funcReport{Name: fi.FullName()}
 			func() {
 				defer func() {
@@ -199,7 +199,7 @@ func runCheck(o *checkOpts) int {
 					continue
 				}
 				w := newWorld()
-				ex := &Exec{w: w, prog: prog, count: map[string]int{}, heapS: map[string]*Sort{}, heapGo: map[string]types.Type{}, closures: map[string]*closureInfo{}}
+				ex := &Exec{w: w, prog: prog, count: map[string]int{}, heapS: map[string]*Sort{}, heapGo: map[string]types.Type{}, typedKeys: map[string]bool{}, closures: map[string]*closureInfo{}}
 				obs, err := ex.lemmaObligations(pk, lm)
 				if err != nil {
 					genFailures = append(genFailures, pk.Short+".lemma."+lm.Name+": "+err.Error())
